@@ -10,6 +10,7 @@ import EaselModel.Buffer.TotalHist
 import EaselModel.Buffer.MemExact
 import EaselModel.Buffer.Stable
 import EaselModel.Buffer.MemRealLemmas  -- round4-mem
+import EaselModel.Buffer.OpenFileLemmas -- round4-open
 /-! # C05 — the input buffer behaves as a byte array with a cursor in every mode and history
 
 Property theorems only; the lemmas are in `EaselModel/Buffer/*`. `Buf` is the model of `ESL_BUFFER`
@@ -564,5 +565,282 @@ example : Mem.memstrcmp (some [97,98]) (some [97,98,0,99]) = some true ∧ Mem.m
 example : Mem.memstrcontains (some []) (some []) = some false ∧ Mem.memstrcontains (some [120,97,98]) (some [97,98]) = some true := by
   rw [(memstrcontains_spec _ _).1, (memstrcontains_spec _ _).1]; decide
 -- END round4-mem
+
+-- BEGIN round4-open
+/-! ## Opening and closing (round 4): `esl_buffer_Open`, `OpenFile`, `OpenPipe`, `Close`, the `AsStr` results
+
+The operating system is a parameter of every statement: `fs` (finite map path → contents of the readable regular files),
+`env` (`getenv`), `gunzip` (what `gzip -dc` writes for a file content, and whether it exits 0), `cfg` (`st_blksize`,
+`_POSIX_VERSION`, the verification hooks), `stdin`. `openAny usesPath` is `esl_buffer_Open` with the `.gz` test on
+`filename` (`usesPath = false`, the working tree's text, see `OpenConsts.gzTestUsesPath`) or on `path` (the proposed fix). -/
+section Round4Open
+open EaselModel.Buffer.OpenFile
+
+/-- **(1) The search.** `esl_buffer_Open` finds a file iff it exists under the name given (current directory) or in one of
+    the directories listed in the variable; the path it settles on is the FIRST of the candidates `filename, d₁/filename,
+    d₂/filename, …` (in the order of the list) that exists. -/
+theorem open_finds_iff (fs : FS) (env : Env) (filename : CStr) (envvar : Option CStr) :
+    ((findPath fs env filename envvar).1.isSome = true ↔
+        (fileExists fs filename = true ∨ ∃ d ∈ listedDirs env envvar, fileExists fs (envPath d filename) = true)) ∧
+    (findPath fs env filename envvar).1 = (candidates env filename envvar).find? (fun p => fileExists fs p) ∧
+    (fileExists fs filename = true → (findPath fs env filename envvar).1 = some filename) := by
+  refine ⟨?_, findPath_eq_find fs env filename envvar, findPath_cwd fs env filename envvar⟩
+  rw [findPath_isSome_iff]
+  simp only [candidates, List.mem_cons, List.mem_map]
+  constructor
+  · rintro ⟨p, hp | ⟨d, hd, hp⟩, hx⟩
+    · rw [hp] at hx; exact Or.inl hx
+    · rw [← hp] at hx; exact Or.inr ⟨d, hd, hx⟩
+  · rintro (hx | ⟨d, hd, hx⟩)
+    · exact ⟨filename, Or.inl rfl, hx⟩
+    · exact ⟨_, Or.inr ⟨d, hd, rfl⟩, hx⟩
+
+/-- … and when none of them exists: `eslENOTFOUND`, and the buffer handed back is in the UNSET state (no memory, no
+    stream, no file name) with an error message. -/
+theorem open_not_found (usesPath : Bool) (cfg : Cfg) (fs : FS) (env : Env) (gunzip : Bytes → Bytes × Bool) (stdin : Bytes)
+    (filename : CStr) (envvar : Option CStr) (hd : filename ≠ dash)
+    (h : ∀ p ∈ candidates env filename envvar, fileExists fs p = false) :
+    (openAny usesPath cfg fs env gunzip stdin filename envvar).st = .enotfound ∧
+    (openAny usesPath cfg fs env gunzip stdin filename envvar).c =
+      some { mode_is := .unset, mem := false, fp := false, filename := none, cmdline := false, pagesize := 4096, errmsg := true } ∧
+    (openAny usesPath cfg fs env gunzip stdin filename envvar).b = none := by
+  have hn : (findPath fs env filename envvar).1 = none := by
+    rw [findPath_eq_find, List.find?_eq_none]
+    intro p hp; simp [h p hp]
+  exact openAny_not_found usesPath cfg fs env gunzip stdin filename envvar hd hn
+
+/-- … and when `p` is the first existing candidate, Open is `OpenPipe(p, "gzip -dc %s")` or `OpenFile(p)` as the `.gz`
+    test decides (status, buffer handed back, initial window) — or the out-of-bounds read of theorem (6). -/
+theorem open_uses_first (usesPath : Bool) (cfg : Cfg) (fs : FS) (env : Env) (gunzip : Bytes → Bytes × Bool) (stdin : Bytes)
+    (filename : CStr) (envvar : Option CStr) (hd : filename ≠ dash) (p : CStr)
+    (h : (candidates env filename envvar).find? (fun p => fileExists fs p) = some p) :
+    let r := openAny usesPath cfg fs env gunzip stdin filename envvar
+    let d : OpenOut := match gzTest usesPath filename p with
+      | none => { st := .fault }
+      | some true => openPipe cfg fs gunzip (some p)
+      | some false => openFile cfg fs p
+    r.st = d.st ∧ r.c = d.c ∧ r.b = d.b :=
+  openAny_found usesPath cfg fs env gunzip stdin filename envvar hd p (by rw [findPath_eq_find]; exact h)
+
+/-- the directory list is the value of the variable cut at every `:` — empty pieces included, nothing normalised -/
+theorem splitColon_spec (s : CStr) :
+    (∀ d ∈ splitColon s, COLON ∉ d) ∧ List.intercalate [COLON] (splitColon s) = s :=
+  EaselModel.Buffer.OpenFile.splitColon_spec s
+
+/-- **(2) Mode choice of `esl_buffer_OpenFile`** (no forcing hook): with `fstat`, a file of at most 4194304 bytes
+    (`eslBUFFER_SLURPSIZE`) is slurped (`eslBUFFER_ALLFILE`; an empty file has `mem = NULL`), a larger one is memory
+    mapped; without `fstat` it is read page by page (`eslBUFFER_FILE`). The window is the existing `openBuf` of that mode. -/
+theorem openFile_mode_spec (cfg : Cfg) (fs : FS) (f : CStr) (src : Bytes) (h : fsRead fs f = some src) (hf : cfg.force = none) :
+    (cfg.posix = true →
+      (openFile cfg fs f).st = .ok ∧
+      (openFile cfg fs f).b = some (openBuf (if src.length ≤ 4194304 then Mode.allfile else Mode.mmap) (filePs cfg) src, src) ∧
+      (openFile cfg fs f).c = some { mode_is := (if src.length ≤ 4194304 then ModeIs.allfile else ModeIs.mmap),
+                                     mem := decide (0 < src.length), filename := some f, pagesize := filePs cfg }) ∧
+    (cfg.posix = false →
+      (openFile cfg fs f).st = .ok ∧ (openFile cfg fs f).b = some (openBuf .file (filePs cfg) src, src)) :=
+  ⟨openFile_posix cfg fs f src h hf, openFile_noposix cfg fs f src h⟩
+
+/-- the page size of `esl_buffer_OpenFile`: `st_blksize` clamped to [512, 4194304] (4096 without `fstat`), unless the hook overrides -/
+theorem openFile_pagesize_clamp (cfg : Cfg) :
+    filePs cfg = (if cfg.hookPs > 0 then cfg.hookPs else if cfg.posix then max 512 (min cfg.blksize 4194304) else 4096) ∧
+    0 < filePs cfg := by
+  refine ⟨?_, filePs_pos cfg⟩
+  unfold filePs
+  rw [clampPs_eq, pageSize_val]
+
+theorem openFile_not_found (cfg : Cfg) (fs : FS) (f : CStr) (h : fsRead fs f = none) :
+    (openFile cfg fs f).st = .enotfound ∧ (openFile cfg fs f).c = some (unsetErr 4096) ∧ (openFile cfg fs f).b = none := by
+  rw [EaselModel.Buffer.OpenFile.openFile_not_found cfg fs f h]
+  exact ⟨rfl, rfl, rfl⟩
+
+/-- `esl_buffer_OpenPipe(filename, cmdfmt)`: `eslENOTFOUND` if the file does not exist; else the command's output `out`
+    through the pipe opener — unless the first read is short AND the command exited non-zero: `eslFAIL`. A failure behind
+    a full first page goes unnoticed (as the documentation says). -/
+theorem openPipe_spec (cfg : Cfg) (fs : FS) (run : Bytes → Bytes × Bool) (f : CStr) :
+    (fsRead fs f = none → (openPipe cfg fs run (some f)).st = .enotfound ∧
+        (openPipe cfg fs run (some f)).c = some (unsetErr (createPs cfg)) ∧ (openPipe cfg fs run (some f)).b = none) ∧
+    (∀ input, fsRead fs f = some input →
+      ((run input).1.length < createPs cfg ∧ (run input).2 = false →
+          (openPipe cfg fs run (some f)).st = .fail ∧ (openPipe cfg fs run (some f)).c = some (unsetErr (createPs cfg)) ∧
+          (openPipe cfg fs run (some f)).b = none) ∧
+      (¬ ((run input).1.length < createPs cfg ∧ (run input).2 = false) →
+          (openPipe cfg fs run (some f)).st = .ok ∧
+          (openPipe cfg fs run (some f)).b = some (openBuf .cmdpipe (createPs cfg) (run input).1, (run input).1))) := by
+  refine ⟨fun h => ?_, fun input h => ?_⟩
+  · rw [openPipe_not_found cfg fs run f h]; exact ⟨rfl, rfl, rfl⟩
+  · obtain ⟨h1, h2⟩ := openPipe_found cfg fs run f input h
+    exact ⟨h1, fun hn => ⟨(h2 hn).1, (h2 hn).2.1⟩⟩
+
+/-- **(3) Whatever path and mode Open chooses**, the buffer it hands back on the bytes `src` behaves on every valid history
+    exactly as the specification "bytes + cursor" on `src` — and therefore exactly as the string opener
+    (`esl_buffer_OpenMem`) on the same bytes, with any page size. -/
+theorem open_semantics_mode_independent (usesPath : Bool) (cfg : Cfg) (fs : FS) (env : Env) (gunzip : Bytes → Bytes × Bool)
+    (stdin : Bytes) (filename : CStr) (envvar : Option CStr) (b : Buf) (src : Bytes)
+    (h : (openAny usesPath cfg fs env gunzip stdin filename envvar).b = some (b, src))
+    (P : Nat) (hP : P ≤ b.pagesize) (ps' : Nat) (hps' : 0 < ps') (hP' : P ≤ ps')
+    (ops : List Op) (hv : ValidHist P (AState.init src) ops) :
+    obsRun { b := b } ops = specRun (AState.init src) ops ∧
+    obsRun { b := b } ops = obsRun { b := openBuf .string ps' src } ops := by
+  have h1 := openAny_semantics usesPath cfg fs env gunzip stdin filename envvar b src h P hP ops hv
+  exact ⟨h1, by rw [h1, EaselModel.Buffer.history_spec .string ps' src hps' P hP' ops hv]⟩
+
+/-- … where `src` is the content of the file at the path found, or — when the `.gz` test holds — what `gzip -dc` writes
+    for that content. -/
+theorem open_gz_semantics (usesPath : Bool) (cfg : Cfg) (fs : FS) (env : Env) (gunzip : Bytes → Bytes × Bool) (stdin : Bytes)
+    (filename : CStr) (envvar : Option CStr) (hd : filename ≠ dash) (b : Buf) (src : Bytes)
+    (h : (openAny usesPath cfg fs env gunzip stdin filename envvar).b = some (b, src)) :
+    ∃ p raw, (candidates env filename envvar).find? (fun p => fileExists fs p) = some p ∧ fsRead fs p = some raw ∧
+      ((gzTest usesPath filename p = some true ∧ src = (gunzip raw).1) ∨
+       (gzTest usesPath filename p = some false ∧ src = raw)) := by
+  obtain ⟨p, raw, h1, h2, h3⟩ := openAny_src usesPath cfg fs env gunzip stdin filename envvar hd b src h
+  exact ⟨p, raw, by rw [← findPath_eq_find]; exact h1, h2, h3⟩
+
+/-- **(4) `esl_buffer_Close` releases every resource exactly once.** For every outcome of `esl_buffer_Open` other than
+    the out-of-bounds read — success in any mode, `eslENOTFOUND`/`eslFAIL` with an UNSET buffer, an exception with NULL —
+    the actions of Open followed by those of `Close(*ret_bf)` acquire and release each resource (the ESL_BUFFER, the
+    malloc'ed or mmap'ed memory, the FILE* from fopen or popen, filename, cmdline, the temporaries `cmd`, `path`,
+    `dirlist`) exactly once, release nothing they did not acquire, and leave nothing. -/
+theorem close_releases_exactly_once (usesPath : Bool) (cfg : Cfg) (fs : FS) (env : Env) (gunzip : Bytes → Bytes × Bool)
+    (stdin : Bytes) (filename : CStr) (envvar : Option CStr)
+    (hst : (openAny usesPath cfg fs env gunzip stdin filename envvar).st ≠ .fault) :
+    balanced ((openAny usesPath cfg fs env gunzip stdin filename envvar).trace ++
+              closeOpt (openAny usesPath cfg fs env gunzip stdin filename envvar).c) = true :=
+  (balanced_iff _).mpr (openAny_close usesPath cfg fs env gunzip stdin filename envvar hst)
+
+/-- the same for each opener called directly (hooks and forced modes included; `OpenMem`/`OpenStream` leave the caller's
+    memory / stream alone) -/
+theorem openers_release_exactly_once (cfg : Cfg) (fs : FS) (run : Bytes → Bytes × Bool) (f : CStr) (fo : Option CStr) (src : Bytes) :
+    balanced ((openFile cfg fs f).trace ++ closeOpt (openFile cfg fs f).c) = true ∧
+    balanced ((openPipe cfg fs run fo).trace ++ closeOpt (openPipe cfg fs run fo).c) = true ∧
+    balanced ((openStream cfg src).trace ++ closeOpt (openStream cfg src).c) = true ∧
+    balanced ((openMem cfg src).trace ++ closeOpt (openMem cfg src).c) = true :=
+  ⟨(balanced_iff _).mpr (openFile_close cfg fs f).1, (balanced_iff _).mpr (openPipe_close cfg fs run fo).1,
+   (balanced_iff _).mpr (openStream_close cfg src), (balanced_iff _).mpr (openMem_close cfg src)⟩
+
+/-- **(5) The strings of `FetchLineAsStr` / `FetchTokenAsStr`**: status and new cursor as the specification says; on
+    `eslOK` the allocation holds the line (token) followed by one NUL — `n + 1` bytes, the last one 0, the first `n` the
+    line — and `*opt_n = n`; otherwise NULL and 0. -/
+theorem asStr_nul_terminated (b : Buf) (sep : Bytes) (h : WF b) (hl : Loaded b) :
+    (((fetchLineAsStr b).1, (fetchLineAsStr b).2.2.2.abs) = ((specGetLine b.abs).1, (specGetLine b.abs).2.2) ∧
+     ((fetchLineAsStr b).1 = .ok →
+        (fetchLineAsStr b).2.1 = some ((specGetLine b.abs).2.1 ++ [0]) ∧
+        (fetchLineAsStr b).2.2.1 = (specGetLine b.abs).2.1.length) ∧
+     ((fetchLineAsStr b).1 ≠ .ok → (fetchLineAsStr b).2.1 = none ∧ (fetchLineAsStr b).2.2.1 = 0)) ∧
+    (((fetchTokenAsStr b sep).1, (fetchTokenAsStr b sep).2.2.2.abs) = ((specToken b.abs sep).1, (specToken b.abs sep).2.2) ∧
+     ((fetchTokenAsStr b sep).1 = .ok →
+        (fetchTokenAsStr b sep).2.1 = some ((specToken b.abs sep).2.1 ++ [0]) ∧
+        (fetchTokenAsStr b sep).2.2.1 = (specToken b.abs sep).2.1.length) ∧
+     ((fetchTokenAsStr b sep).1 ≠ .ok → (fetchTokenAsStr b sep).2.1 = none ∧ (fetchTokenAsStr b sep).2.2.1 = 0)) ∧
+    (∀ l : Bytes, (l ++ [(0 : UInt8)]).length = l.length + 1 ∧ (l ++ [(0 : UInt8)])[l.length]? = some 0 ∧
+        (l ++ [(0 : UInt8)]).take l.length = l ∧ (l ++ [(0 : UInt8)]).getLast? = some 0) :=
+  ⟨fetchLineAsStr_spec b h hl, fetchTokenAsStr_spec b sep h, asStrAlloc_spec⟩
+
+/-- `strlen(result) = n` iff the line (token) has no embedded NUL; in every case `strlen` stops inside the allocation -/
+theorem asStr_strlen_iff (l : Bytes) :
+    (strlenIn (l ++ [0]) = some l.length ↔ (0 : UInt8) ∉ l) ∧
+    (∃ k, strlenIn (l ++ [0]) = some k ∧ k ≤ l.length ∧ (l ++ [(0 : UInt8)])[k]? = some 0) :=
+  ⟨strlen_asStr_iff l, strlen_asStr_le l⟩
+
+/-- **(6) The `.gz` test of the working tree, `strcmp(filename + strlen(path) - 3, ".gz")`.** Found in the current
+    directory (`path = filename`) Open never reads out of bounds, and the test is the documented one (the name ends in `.gz`). -/
+theorem open_cwd_never_faults (usesPath : Bool) (cfg : Cfg) (fs : FS) (env : Env) (gunzip : Bytes → Bytes × Bool) (stdin : Bytes)
+    (filename : CStr) (envvar : Option CStr) (h : fileExists fs filename = true) :
+    (openAny usesPath cfg fs env gunzip stdin filename envvar).st ≠ .fault ∧
+    gzTest usesPath filename filename = some (decide (3 < filename.length ∧ filename.drop (filename.length - 3) = dotGz)) := by
+  refine ⟨fun hf => ?_, gzTest_self usesPath filename⟩
+  obtain ⟨_, p, hp, hg⟩ := (openAny_fault_iff usesPath cfg fs env gunzip stdin filename envvar).mp hf
+  rw [findPath_cwd fs env filename envvar h] at hp
+  cases hp
+  exact gzTest_cwd_ne_none usesPath filename hg
+
+/-- Found through the directory list, in directory `d` (so `path = d/filename`): Open reads out of bounds — behind the
+    terminator of `filename` — exactly when `d` is 3 bytes or longer. In general: iff `strlen(path) - 3 > strlen(filename)`. -/
+theorem open_gz_fault_iff (cfg : Cfg) (fs : FS) (env : Env) (gunzip : Bytes → Bytes × Bool) (stdin : Bytes)
+    (filename : CStr) (envvar : Option CStr) :
+    ((openAny false cfg fs env gunzip stdin filename envvar).st = .fault ↔
+      filename ≠ dash ∧ ∃ p, (candidates env filename envvar).find? (fun p => fileExists fs p) = some p ∧
+        3 < p.length ∧ filename.length < p.length - 3) ∧
+    (∀ d, filename ≠ dash → (candidates env filename envvar).find? (fun p => fileExists fs p) = some (envPath d filename) →
+      ((openAny false cfg fs env gunzip stdin filename envvar).st = .fault ↔ 3 ≤ d.length)) := by
+  have key := openAny_fault_iff false cfg fs env gunzip stdin filename envvar
+  rw [findPath_eq_find] at key
+  refine ⟨?_, fun d hd hf => ?_⟩
+  · rw [key]
+    constructor
+    · rintro ⟨hd, p, hp, hg⟩; exact ⟨hd, p, hp, (gzTest_none_iff filename p).mp hg⟩
+    · rintro ⟨hd, p, hp, hg⟩; exact ⟨hd, p, hp, (gzTest_none_iff filename p).mpr hg⟩
+  · rw [key]
+    constructor
+    · rintro ⟨_, p, hp, hg⟩
+      rw [hf] at hp; cases hp
+      rw [gzTest_env] at hg
+      by_cases h3 : 3 ≤ d.length
+      · exact h3
+      · rw [if_neg h3] at hg; simp at hg
+    · intro h3
+      exact ⟨hd, envPath d filename, hf, by rw [gzTest_env, if_pos h3]⟩
+
+def gzWitnessFS : FS := [([100, 105, 114, 47, 97, 46, 103, 122], [31, 139, 8, 0])]      -- "dir/a.gz"
+def gzWitnessEnv : Env := [([80], [100, 105, 114])]                                      -- P=dir
+
+/-- the witness of the known finding `C05:open:gz-suffix-indexes-filename`: `esl_buffer_Open("a.gz", "P")` with `P=dir`
+    and the file `dir/a.gz`: `n = 8`, the read starts at `filename[5]` of the 5-byte object `"a.gz\0"` -/
+theorem open_gz_fault_witness :
+    (openAny false {} gzWitnessFS gzWitnessEnv (fun _ => ([], false)) [] [97, 46, 103, 122] (some [80])).st = .fault := by
+  decide
+
+/-- … and when it does not fault (directory names of at most 2 bytes) the test answers "not gzip" whatever the name: a
+    `.gz` file found through the directory list is never decompressed; it is opened as a plain file. -/
+theorem open_gz_env_never_recognised (d filename : CStr) :
+    gzTest false filename (envPath d filename) = (if 3 ≤ d.length then none else some false) ∧
+    gzTest false filename (envPath d filename) ≠ some true := by
+  refine ⟨gzTest_env d filename, ?_⟩
+  rw [gzTest_env]; split <;> simp
+
+/-- With the proposed fix (`strcmp(path + n - 3, ".gz")`) Open never reads out of bounds … -/
+theorem open_fixed_never_faults (cfg : Cfg) (fs : FS) (env : Env) (gunzip : Bytes → Bytes × Bool) (stdin : Bytes)
+    (filename : CStr) (envvar : Option CStr) :
+    (openAny true cfg fs env gunzip stdin filename envvar).st ≠ .fault := by
+  intro hf
+  obtain ⟨_, p, _, hg⟩ := (openAny_fault_iff true cfg fs env gunzip stdin filename envvar).mp hf
+  exact gzTest_fixed_ne_none filename p hg
+
+/-- … and the test is the documented one wherever the file was found: the path (equivalently the name) ends in `.gz`. -/
+theorem open_fixed_gz_iff_suffix (filename path : CStr) :
+    gzTest true filename path = some (decide (3 < path.length ∧ path.drop (path.length - 3) = dotGz)) :=
+  gzTest_fixed filename path
+
+-- non-vacuity
+private def exFS : FS := [([102], [97, 10]), ([97, 47, 103], [98, 10]), ([98, 47, 103], [99, 10]), ([122, 46, 103, 122], [1, 2])]
+private def exEnv : Env := [([80], [120, 58, 58, 97, 58, 98])]                            -- P=x::a:b
+private def exGunzip : Bytes → Bytes × Bool := fun raw => if raw = [1, 2] then ([104, 105, 10], true) else ([], false)
+-- cwd; second-but-first-existing listed directory (x, "" do not have it; a wins over b); nowhere; .gz in cwd through the pipe
+example : (findPath exFS exEnv [102] (some [80])).1 = some [102] := by decide
+example : splitColon [120, 58, 58, 97, 58, 98] = [[120], [], [97], [98]] := by decide
+example : (findPath exFS exEnv [103] (some [80])).1 = some [97, 47, 103] := by decide
+example : ∀ p ∈ candidates exEnv [113] (some [80]), fileExists exFS p = false := by decide
+example : (openAny false {} exFS exEnv exGunzip [] [113] (some [80])).st = .enotfound := by decide
+example : (openAny false {} exFS exEnv exGunzip [] [103] none).st = .enotfound := by decide
+example : ((openAny false {} exFS exEnv exGunzip [] [103] (some [80])).b.map (·.2)) = some [98, 10] := by decide
+example : ((openAny false {} exFS exEnv exGunzip [] [122, 46, 103, 122] none).b.map (·.2)) = some [104, 105, 10] := by decide
+example : ((openAny false { hookPs := 2 } exFS exEnv exGunzip [] [122, 46, 103, 122] none).b.map (·.1.mode)) = some Mode.cmdpipe := by decide
+example : (openAny false {} exFS exEnv (fun _ => ([], false)) [] [122, 46, 103, 122] none).st = .fail := by decide
+example : ((openAny false {} exFS exEnv exGunzip [5, 10] dash none).b.map (·.1.mode)) = some Mode.stream := by decide
+example : fsRead exFS [102] = some [97, 10] ∧ ({} : Cfg).force = none ∧ ({} : Cfg).posix = true := by decide
+example : filePs { blksize := 100 } = 512 ∧ filePs { blksize := 65536 } = 65536 ∧ filePs { blksize := 8388608 } = 4194304 ∧
+    filePs { blksize := 100, hookPs := 3 } = 3 ∧ filePs { posix := false, blksize := 100 } = 4096 := by decide
+example : chooseMode true 4194304 = .allfile ∧ chooseMode true 4194305 = .mmap ∧ chooseMode true 0 = .allfile ∧
+    chooseMode false (-1) = .file := by decide
+example : (openFile { force := some .mmap } [([102], [])] [102]).st = .esys ∧
+    balanced (openFile { force := some .mmap } [([102], [])] [102]).trace = true := by decide
+example : balanced [.acq .bf, .acq .mem, .rel .bf] = false ∧ balanced [.acq .bf, .rel .bf, .rel .bf] = false ∧
+    balanced [.rel .mem] = false := by decide
+example : (openAny false {} exFS exEnv exGunzip [] [103] (some [80])).st ≠ .fault := by decide
+example : strlenIn ([97, 0, 98] ++ [0]) = some 1 ∧ strlenIn ([97, 98] ++ [0]) = some 2 := by decide
+example : gzTest false [97, 46, 103, 122] (envPath [100] [97, 46, 103, 122]) = some false ∧
+    gzTest true [97, 46, 103, 122] (envPath [100, 105, 114] [97, 46, 103, 122]) = some true ∧
+    gzTest false [46, 103, 122] [46, 103, 122] = some false := by decide
+end Round4Open
+-- END round4-open
 
 end EaselModel.Props.C05
